@@ -118,6 +118,28 @@ def compare(case, om, oi):
             return "axis %s: min face %s not within %s of the certified minimum [%s, %s]" % ("xyz"[k], float(mn), float(tol), float(mnl), float(mnu))
         if not (mxl - tol <= mx <= mxu + tol):
             return "axis %s: max face %s not within %s of the certified maximum [%s, %s]" % ("xyz"[k], float(mx), float(tol), float(mxl), float(mxu))
+    # the start point and the end point of every segment are stored numbers (16 bits times an integer scale: exact in
+    # binary32) and positions of the trajectory: the box contains them exactly
+    # (the tolerance above is that of the inner extrema of cubics, orders of magnitude wider)
+    w = case.split(" ")
+    try:
+        scale, start, segs = G.decode(list(bytes.fromhex(w[2])))
+    except Exception:
+        return None
+    # (every such point but the very last is the constant coefficient of a segment's polynomial, evaluated at u = 0
+    # without rounding; the last one is a + b + c + d in binary32 unless that axis of the last segment is straight)
+    for k, ax in enumerate(axes):
+        if int(ax[2:].split(":")[4]) > 3:
+            continue
+        mn, mx = faces[2 * k], faces[2 * k + 1]
+        pts = [start[k]] + [sa[k][-1] for _, sa in segs[:-1]]
+        if segs and len(segs[-1][1][k]) <= 2:
+            pts.append(segs[-1][1][k][-1])
+        for pk in pts:
+            p = {k: pk}
+            tolp = 2 * EPS * max(abs(p[k]), 1)
+            if not (mn - tolp <= p[k] <= mx + tolp):
+                return "axis %s: the stored position %s (a start or end point of a segment) lies outside the box [%s, %s]" % ("xyz"[k], float(p[k]), float(mn), float(mx))
     return None
 
 
